@@ -476,3 +476,23 @@ class DetailsFormat(Instance):
 
 _reg(DetailsFormat("details_batch2", 1)); _reg(DetailsFormat("T_details_batch2", 2))
 QUICK += ["details_batch2"]; THOROUGH += ["T_details_batch2"]
+
+
+# ---------------------------------------------------------------------------------------------------------------
+# (g) whole archives: the real pipeline writes an archive (harness/pipe.py) and a reader built ONLY from the format rules
+#     (harness/agcread.py; natively replay/src/indep.rs) must recover every sample: directory, params, collection streams, stream
+#     names, packs, raw-group placeholder, reference marker / tuple packing, metadata convention, LZ-diff V2 text.
+from harness.pipe import Pipeline, SPL as _SPL, TWO as _TWO, THREE as _THREE
+from harness.C01 import RICH as _RICH
+
+
+def _fmt(name, threads, samples, **kw):
+    i = Pipeline(name, threads, samples, splitters=_SPL, view="format", **kw)
+    i.required_witnesses = ("finalized", "independent_decoder_agrees")
+    return _reg(i)
+
+
+QUICK += [_fmt("arc_rich_api_t1", 1, _RICH, preempt=0).name, _fmt("arc_rich_multi_t2_store", 2, _RICH, preempt=0, driver="multi", zstd="store").name,
+          _fmt("arc_edit_subst_t1", 1, _TWO, preempt=0, edits=[("subst", 1, 0)]).name]
+THOROUGH += ["arc_rich_api_t1", "arc_rich_multi_t2_store", "arc_edit_subst_t1", _fmt("T_arc_edit_indel_rc_t1", 1, _TWO, preempt=0, edits=[("rc", 1, 0), ("del", 1, 0), ("ins", 1, 0)]).name,
+             _fmt("T_arc_single_t2", 2, _THREE, preempt=0, driver="single", pack_size=Int(64, 0, 2)).name]
